@@ -1,7 +1,10 @@
 import BeffVerif.Props.C07
+import BeffVerif.Props.C07Print
 open BeffVerif.C07
 #print axioms excluded_numbers_widen_to_number
 #print axioms literal_sets_are_exact
 #print axioms recursive_result_keeps_its_definition
 #print axioms keyof_object_keys
 #print axioms indexed_access_under_index_signature
+#print axioms BeffVerif.C07Print.removeNots_spine_free
+#print axioms BeffVerif.C07Print.exclude_result_spine_free
